@@ -22,6 +22,9 @@ CONSTANTS MaxJobs,        \* --jobs ranges over 1..MaxJobs
           ExitCodes,      \* e.g. {0, 1}
           LaunchFail,     \* BOOLEAN: fork may fail
           SecondReaper,   \* BOOLEAN: the Popen object is dropped, so __del__/_cleanup poll waitpid(pid)
+          WakeupFd,       \* BOOLEAN: the self-pipe is the signal wakeup fd (written by the C-level handler, one byte per
+                          \* delivered signal) and wait() loops until a return code is recorded (code after the D14 repair);
+                          \* FALSE: the Python-level handler writes one byte per reaped child and wait() reads exactly one
           AllowAbort      \* BOOLEAN: SIGINT/SIGTERM may arrive (once) at any step; start_execution is then modelled in
                           \* finer steps (child forked / Popen bound / handle returned / registered)
 
@@ -57,7 +60,7 @@ IsSync(o) == gr.kind[TaskOf(o)] \in {"group", "combine"}
 ParOp(o) == ~IsSync(o) /\ gr.par[TaskOf(o)]
 
 Cfg == [n |-> gr.n, target |-> gr.target, deps |-> gr.deps, kind |-> gr.kind, par |-> gr.par,
-        reusable |-> [t \in 1..gr.n |-> ~MustRun(gr, t)], jobs |-> jobs, stop |-> stop]
+        reusable |-> [t \in 1..gr.n |-> ~MustRun(gr, t)], jobs |-> jobs, stop |-> stop, linesLate |-> FALSE]
 
 (* graphs for execution: planning-only dimensions are fixed *)
 ExecGraphs ==
@@ -92,6 +95,8 @@ Enq(rp, rs, o) == IF ParOp(o) THEN <<Append(rp, o), rs>> ELSE <<rp, Append(rs, o
 RECURSIVE EnqAll(_, _, _)
 EnqAll(rp, rs, s) == IF s = <<>> THEN <<rp, rs>> ELSE LET r == Enq(rp, rs, Head(s)) IN EnqAll(r[1], r[2], Tail(s))
 SortedSeq(S) == SetToSortSeq(S, <)
+(* every order in which waitpid(-1) may hand out a set of zombies (the kernel does not promise one) *)
+SeqsOf(S) == {q \in [1..Cardinality(S) -> S] : \A i, j \in 1..Cardinality(S) : i # j => q[i] # q[j]}
 
 (* _process_finished_op: decrement the dependents' counters, enqueue those reaching 0 (in deps_of order) *)
 Finished(o, w, rp, rs) ==
@@ -205,20 +210,43 @@ Register ==
     /\ UNCHANGED <<Conf, cur, curSlot, ost, waiting, readyP, readyS, inflS, runPar, completed, ndeq, Kern, recorded,
                    launchFailed, m>>
 
-(* wait_for_next_op: sync ops first (list.pop()), else one pipe byte + _returncodes.pop() *)
-Wait ==
+(* wait_for_next_op: sync ops first (list.pop()); else SigchldHelper.wait().                                        *)
+(* The main thread either finds what it needs and goes on, or ENTERS THE BLOCKING read() (pc = "blocked").  While it *)
+(* is blocked the Python-level handler cannot run; it is woken by a byte in the pipe, or by a signal that arrives   *)
+(* DURING the read (EINTR, see ChildExit).  A signal whose C-level handler ran just BEFORE the read started - the   *)
+(* interleaving ChildExit ; WaitTry with no Handler in between - does not interrupt it.                             *)
+PopRc ==
+    LET e == rcs[Len(rcs)] IN
+    /\ rcs' = SubSeq(rcs, 1, Len(rcs) - 1)
+    /\ IF e \in inflP THEN cur' = e /\ inflP' = inflP \ {e} /\ pc' = "finish"
+       ELSE UNCHANGED <<cur, inflP, pc>>        \* a pid that is not ours: ignored, wait again
+WaitTry ==
     /\ pc = "wait"
     /\ IF inflS # <<>>
        THEN /\ cur' = inflS[Len(inflS)] /\ inflS' = SubSeq(inflS, 1, Len(inflS) - 1) /\ pc' = "finish"
-            /\ UNCHANGED <<pipe, rcs, inflP>>
-       ELSE /\ pipe > 0 /\ pipe' = pipe - 1
-            /\ LET e == rcs[Len(rcs)] IN
-               /\ rcs' = SubSeq(rcs, 1, Len(rcs) - 1)
-               /\ IF e \in inflP THEN cur' = e /\ inflP' = inflP \ {e} /\ pc' = "finish"
-                  ELSE UNCHANGED <<cur, inflP, pc>>
-            /\ UNCHANGED inflS
-    /\ UNCHANGED <<Conf, curSlot, ost, waiting, readyP, readyS, slots, runPar, completed, ndeq, proc, code,
-                   sigPending, active, slotOf, recorded, launchFailed, m>>
+            /\ UNCHANGED <<pipe, rcs, inflP, proc, sigPending>>
+       ELSE /\ UNCHANGED inflS
+            /\ IF WakeupFd
+               THEN IF rcs # <<>> THEN PopRc /\ UNCHANGED <<pipe, proc, sigPending>>
+                    ELSE IF pipe > 0
+                         THEN \* read(4096) returns (drains the bytes); back in the interpreter loop the pending
+                              \* Python-level handler runs before the loop condition is evaluated again
+                              /\ pipe' = 0
+                              /\ IF sigPending
+                                 THEN /\ \E z \in SeqsOf({p \in Ops : proc[p] = "zombie"}) : rcs' = rcs \o z
+                                      /\ proc' = [p \in Ops |-> IF proc[p] = "zombie" THEN "reaped" ELSE proc[p]]
+                                      /\ sigPending' = FALSE
+                                 ELSE UNCHANGED <<rcs, proc, sigPending>>
+                              /\ UNCHANGED <<cur, inflP, pc>>
+                         ELSE pc' = "blocked" /\ UNCHANGED <<pipe, rcs, cur, inflP, proc, sigPending>>
+               ELSE IF pipe > 0 THEN pipe' = pipe - 1 /\ PopRc /\ UNCHANGED <<proc, sigPending>>
+                    ELSE pc' = "blocked" /\ UNCHANGED <<pipe, rcs, cur, inflP, proc, sigPending>>
+    /\ UNCHANGED <<Conf, curSlot, ost, waiting, readyP, readyS, slots, runPar, completed, ndeq, code,
+                   active, slotOf, recorded, launchFailed, m>>
+Unblock ==      \* data arrived in the pipe: read() returns
+    /\ pc = "blocked" /\ pipe > 0 /\ pc' = "wait"
+    /\ UNCHANGED <<Conf, cur, curSlot, ost, waiting, readyP, readyS, inflP, inflS, slots, runPar, completed, ndeq, Kern,
+                   slotOf, recorded, launchFailed, m>>
 
 (* finish_execution + set_state + slot release + _process_finished_op *)
 Finish ==
@@ -278,7 +306,7 @@ Report ==
 
 (* blocked forever in os.read on the self-pipe: nothing can ever write to it *)
 Hang ==
-    /\ pc = "wait" /\ inflS = <<>> /\ pipe = 0 /\ ~sigPending /\ \A p \in Ops : proc[p] # "running"
+    /\ pc = "blocked" /\ pipe = 0 /\ \A p \in Ops : proc[p] # "running"
     /\ m' = RO!OnReturn(Cfg, m, -1, TRUE, "none", {}, {}, recorded, FALSE)
     /\ pc' = "done"
     /\ UNCHANGED <<Conf, cur, curSlot, ost, waiting, readyP, readyS, inflP, inflS, slots, runPar, completed, ndeq,
@@ -293,14 +321,17 @@ ChildExit(p) ==
          /\ code' = [code EXCEPT ![p] = c]
          /\ m' = RO!OnExit(Cfg, m, TaskOf(p), c)
     /\ proc' = [proc EXCEPT ![p] = "zombie"] /\ sigPending' = TRUE
-    /\ UNCHANGED <<Conf, pc, cur, curSlot, ost, waiting, readyP, readyS, inflP, inflS, slots, runPar, completed, ndeq,
-                   pipe, rcs, active, slotOf, recorded, launchFailed>>
+    \* the C-level handler: with the wakeup fd it writes a byte at once; a signal DURING a blocked read interrupts it
+    /\ pipe' = IF WakeupFd /\ pc # "start" THEN pipe + 1 ELSE pipe
+    /\ pc' = IF pc = "blocked" THEN "wait" ELSE pc
+    /\ UNCHANGED <<Conf, cur, curSlot, ost, waiting, readyP, readyS, inflP, inflS, slots, runPar, completed, ndeq,
+                   rcs, active, slotOf, recorded, launchFailed>>
 
 (* SigchldHelper._handler: reap ALL zombies with waitpid(-1, WNOHANG), one pipe byte per recorded exit *)
 Handler ==
-    /\ sigPending /\ pc \notin {"start", "after_loop", "kill_exits", "report", "done", "abort_exits", "abort_report"}
-    /\ LET z == SortedSeq({p \in Ops : proc[p] = "zombie"}) IN
-         /\ rcs' = rcs \o z /\ pipe' = pipe + Len(z)
+    /\ sigPending /\ pc \notin {"start", "blocked", "after_loop", "kill_exits", "report", "done", "abort_exits", "abort_report"}
+    /\ \E z \in SeqsOf({p \in Ops : proc[p] = "zombie"}) :
+         /\ rcs' = rcs \o z /\ pipe' = IF WakeupFd THEN pipe ELSE pipe + Len(z)
          /\ proc' = [p \in Ops |-> IF proc[p] = "zombie" THEN "reaped" ELSE proc[p]]
     /\ sigPending' = FALSE
     /\ UNCHANGED <<Conf, pc, cur, curSlot, ost, waiting, readyP, readyS, inflP, inflS, slots, runPar, completed, ndeq,
@@ -339,7 +370,7 @@ AbortReport ==     \* "Task aborted" banner, ConductorAbort -> cli_command -> ER
     /\ UNCHANGED <<Conf, cur, curSlot, ost, waiting, readyP, readyS, inflP, inflS, slots, runPar, completed, ndeq,
                    Kern, slotOf, recorded, launchFailed>>
 
-Main == Start \/ LoopTest \/ Launch \/ SyncStart \/ Cleanup \/ ForkOK \/ ForkFail \/ Del \/ Register \/ Wait
+Main == Start \/ LoopTest \/ Launch \/ SyncStart \/ Cleanup \/ ForkOK \/ ForkFail \/ Del \/ Register \/ WaitTry \/ Unblock
         \/ Finish \/ AfterLoop \/ KillExits \/ Report \/ Hang \/ BindPopen \/ ReturnHandle \/ AbortExits \/ AbortReport
 Done == pc = "done" /\ UNCHANGED vars
 Next == Main \/ Done \/ Handler \/ Abort \/ \E p \in Ops : ChildExit(p)
@@ -367,7 +398,7 @@ C16Rows == ViolIn({"RowsOnlyForExit0"})
 C16WindowsAreReal == ~(abortPc \in KnownAbortWindows /\ pc = "done" /\ "AllLiveKilled" \in m.viol)
 
 (* implementation invariants the mechanisms of C09 / C04 rest on *)
-PipeMatchesList == pipe = Len(rcs)
+PipeMatchesList == WakeupFd \/ pipe = Len(rcs)
 SlotStack == /\ \A i, j \in 1..Len(slots) : i # j => slots[i] # slots[j]
              /\ RangeS(slots) \cap {slotOf[p] : p \in inflP} = {}
              /\ RangeS(slots) \cup {slotOf[p] : p \in inflP} \subseteq (0..(jobs - 1)) \cup {-1}
